@@ -409,18 +409,20 @@ class Respondent(httping.Parsent):
 
         self.headers = lodict()
 
-        # create generator
-        lineParser = httping.parseLine(raw=self.msg, eols=(CRLF, LF), kind="status line")
+        lineParser = None
         while True:  # parse until we get a non-100 status
             if self.closed and not self.msg:  # connection closed prematurely
                 raise httping.PrematureClosure("Connection closed unexpectedly"
                                                " while parsing response start line")
 
+            if lineParser is None:  # create generator, new one for each status line
+                lineParser = httping.parseLine(raw=self.msg, eols=(CRLF, LF), kind="status line")
             line = next(lineParser)
             if line is None:
                 (yield None)
                 continue
             lineParser.close()  # close generator
+            lineParser = None
 
             version, status, reason = httping.parseStatusLine(line)
             if status != httping.CONTINUE:  # 100 continue (with request or ignore)
